@@ -1,9 +1,7 @@
 /-
 `Markdown.parse` with `renderer=None`: normalise, block pass, inline pass (`_iter_render`).
 -/
-import Mistune.Model.Block
-import Mistune.Model.Inline
-import Mistune.SecondPass
+import Mistune.Model.Hooks
 namespace Mistune
 namespace Model
 
@@ -12,10 +10,17 @@ namespace Model
 def iterRender (cfg : MdCfg) (env : Json) (fuel : Nat) (toks : List Json) : Except PyErr (List Json) :=
   iterRenderG (inlineParse cfg env) fuel toks
 
-/-- `md(s)` with `renderer=None` -/
+/-- `md(s)` with `renderer=None` (`Markdown.parse`): normalise, `before_parse_hooks` (none is modelled), block pass,
+`before_render_hooks` on the block tokens, `render_state` (the inline pass), `after_render_hooks` on the result.
+The inline pass of a configuration whose inline rules write `env` (`footnote`) threads `env` through the calls
+(`Hooks.iterRenderEnv`); the others use `iterRender` (nothing writes `env` there). -/
 def parseDoc (cfg : MdCfg) (s : Str) : Except PyErr (List Json) := do
+  if !cfg.beforeParseHooks.isEmpty then throw .keyError
   let (toks, env) ← blockParse cfg (norm s)
-  iterRender cfg env 64 toks
+  let toks ← Hooks.beforeRender cfg cfg.beforeRenderHooks toks
+  let (result, env) ← if cfg.inlineRules.contains "footnote" then Hooks.renderState cfg toks env
+    else do pure (← iterRender cfg env 64 toks, env)
+  Hooks.afterRender cfg env cfg.afterRenderHooks result
 
 end Model
 end Mistune
